@@ -648,6 +648,19 @@ class Sim(FAM.FamilyMixin):
         self.inc("fault.bad_index")
         return self.op_set_s(op)
 
+    def live_data(self, op, tname, ln, avoid_store):
+        """a live handle (possibly masked or strided) of element type tname and length ln with storage of its own, to be
+        used as the data operand of an assignment / in-place operation; None if there is none"""
+        if (op["h"] // 11) % 3 == 0:
+            return None
+        o = self.pick(op["h"] // 5, lambda x: x.kind == "arr" and x.tname == tname and x.store is not avoid_store and len(x.idx) == ln)
+        if o is None:
+            return None
+        self.inc("probe.data_operand_is_live_handle")
+        if o.masked or o.comp is not None:
+            self.inc("probe.data_operand_is_masked_or_strided_view")
+        return o.real, o.values()
+
     def source_array(self, op, h, want_len):
         """right-hand side array for an assignment: fresh, or an existing handle of the same type with separate storage"""
         ln = max(0, want_len + op.get("dlen", 0))
@@ -710,7 +723,12 @@ class Sim(FAM.FamilyMixin):
         form = op["form"]
         ln = n if form == "full" else cnt if form == "packed" else n + 1 + (1 if n + 1 == cnt else 0)
         vals = [fresh_value(h.tname, op["v"] * 16 + 3 + i) for i in range(ln)]
-        got = self.call(h.real.__setitem__, self.make_mask(bits), self.make_array(h.tname, vals))
+        ld = self.live_data(op, h.tname, ln, h.store)
+        if ld:
+            data, vals = ld
+        else:
+            data = self.make_array(h.tname, vals)
+        got = self.call(h.real.__setitem__, self.make_mask(bits), data)
         # documented refusal: masked references do not support mask assignment of arrays
         bad = not h.writable or len(bits) != n or h.masked or (ln != n and ln != cnt)
         if not h.writable:
@@ -818,7 +836,12 @@ class Sim(FAM.FamilyMixin):
             if ln != n and h.masked and ln == h.ulen:
                 ln += 1     # the unmasked length is a legal operand length for a masked left-hand side
             vals = [small(op["v"] * 16 + i) for i in range(ln)]
-            got = self.call(fn, self.make_array(h.tname, vals))
+            ld = self.live_data(op, h.tname, ln, h.store) if rhs == "array" else None
+            if ld and all(all(isinstance(x, bool) or abs(x) < 1 << 20 for x in v) for v in ld[1]):
+                data, vals = ld
+            else:
+                data = self.make_array(h.tname, vals)
+            got = self.call(fn, data)
             if ln != n:
                 bad = True
                 self.inc("fault.bad_length")
